@@ -252,12 +252,36 @@ class CallGraph:
                 cs.callees = list(dict.fromkeys(list(self.reg.render_rules.values()) + ex))
                 cs.kind = "render-dispatch"
                 return cs
+        def lookup_alts(d: ast.AST) -> list[Func] | None:
+            """d is a rule lookup, a rule getter, a bound method of the renderer (the default renderer), or a conditional / `or`
+            expression over those, with at least one lookup: the extra methods it can denote, or None."""
+            selfn_ = f.node.args.args[0].arg if f.node.args.args else "self"
+            parts = [d.body, d.orelse] if isinstance(d, ast.IfExp) else list(d.values) if isinstance(d, ast.BoolOp) and isinstance(d.op, ast.Or) else [d]
+            extra_: list[Func] = []
+            seen = False
+            for a_ in parts:
+                if is_rule_lookup(a_):
+                    seen = True
+                    if isinstance(a_, ast.Call) and len(a_.args) == 2 and isinstance(a_.args[1], ast.Attribute) and isinstance(a_.args[1].value, ast.Name) \
+                            and a_.args[1].value.id == selfn_ and f.cls:
+                        m_ = self.p.method(f.cls, a_.args[1].attr)
+                        if m_ is not None:
+                            extra_.append(m_)
+                elif rule_getter(a_) is not None:
+                    seen = True
+                    extra_ += rule_getter(a_) or []
+                elif isinstance(a_, ast.Attribute) and isinstance(a_.value, ast.Name) and a_.value.id == selfn_ and f.cls \
+                        and self.p.method(f.cls, a_.attr) is not None:
+                    extra_.append(self.p.method(f.cls, a_.attr))          # type: ignore[arg-type]
+                else:
+                    return None
+            return extra_ if seen else None
         if isinstance(fn, ast.Name) and sc.is_local(fn.id):
             ds = [x.value for x in own_nodes(f.node) if isinstance(x, ast.Assign) and any(isinstance(t_, ast.Name) and t_.id == fn.id for t_ in x.targets)]
-            if ds and all(is_rule_lookup(d) or rule_getter(d) is not None for d in ds):
+            if ds and all(lookup_alts(d) is not None for d in ds):
                 ex2: list[Func] = []
                 for d in ds:
-                    ex2 += rule_getter(d) or []
+                    ex2 += lookup_alts(d) or []
                 cs.callees = list(dict.fromkeys(list(self.reg.render_rules.values()) + ex2))
                 cs.kind = "render-dispatch"
                 return cs
